@@ -494,6 +494,43 @@ def matching_module_table(ctx: Ctx) -> Dict[str, Tuple[str, bool]]:
     return out
 
 
+def _threshold_interval_meets_domain(facts, thr: str, domain) -> bool:
+    """Do the comparisons of the bare parameter `thr` with numeric constants decided on this path leave a value inside `domain` (closed interval)?
+    Anything that is not such a comparison is ignored (-> over-approximation: True)."""
+    lo, lo_strict, hi, hi_strict = domain[0], False, domain[1], False
+    for k, v in facts.items():
+        if not k.startswith("cmp:"):
+            continue
+        m = re.match(r"^cmp:(.+?) (<=|<) (.+)$", k)
+        if not m:
+            continue
+        a, op, b = m.group(1).strip(), m.group(2), m.group(3).strip()
+        try:
+            if a == thr:
+                c, thr_left = float(b), True
+            elif b == thr:
+                c, thr_left = float(a), False
+            else:
+                continue
+        except ValueError:
+            continue
+        strict = op == "<"
+        # normalise to  thr (<|<=) c   or   c (<|<=) thr, then negate when the fact is False
+        upper = thr_left if v else not thr_left      # constraint bounds thr from above
+        st = strict if v else not strict
+        if upper:
+            if c < hi or (c == hi and st and not hi_strict):
+                hi, hi_strict = c, st
+        else:
+            if c > lo or (c == lo and st and not lo_strict):
+                lo, lo_strict = c, st
+    if lo > hi:
+        return False
+    if lo == hi:
+        return not (lo_strict or hi_strict)
+    return True
+
+
 def is_better_than_op(ctx: Ctx, cname: str) -> Tuple[Optional[str], bool, object]:
     """(operator on `self.value ? threshold`, value-None-gives-False, FuncInfo)."""
     fi = ctx.func(OMQ + cname + ".is_better_than")
@@ -513,6 +550,17 @@ def is_better_than_op(ctx: Ctx, cname: str) -> Tuple[Optional[str], bool, object
             if cmp_on_none:
                 ctx.violate("R-CMPDIR", f"{cname}.is_better_than", "compares-missing-score", f"{cname}.is_better_than evaluates `{cmp_on_none[0][4:]}` on the path where the score is None (no ground truth): "
                             "a missing score must simply be `not better` (and an existing one must be compared)", fi=fi)
+                return "?", none_false, fi
+            continue
+        # the bound the score is compared with must be the threshold the caller gave, not a rescaled one - unless the path is only reachable for thresholds
+        # outside the threshold's domain (IoU: [0, 1]; distances: [0, inf)), about which the property says nothing
+        resc = [k for k in p.facts if k.startswith("cmp:") and "self.value" in k and thr in k and k[4:].replace("self.value", "").replace("<=", "").replace("<", "").strip() != thr]
+        if resc:
+            if _threshold_interval_meets_domain(p.facts, thr, (0.0, 1.0) if cname.startswith("IOU") else (0.0, float("inf"))):
+                ctx.violate("R-CMPDIR", f"{cname}.is_better_than", "rescaled-threshold",
+                            f"{cname}.is_better_than compares the score with `{resc[0][4:]}` on the path [{p.cond_text()[:120]}], which thresholds inside the valid range can take: "
+                            "the bound is no longer the threshold the caller gave, so a result that is a TP at one threshold need not be a TP at every looser one", fi=fi,
+                            expected=f"self.value compared with {thr} itself", found=resc[0][4:])
                 return "?", none_false, fi
             continue
         if vn is False and isinstance(p.retval, ast.Constant) and not any(k.startswith("cmp:") and "self.value" in k for k in p.facts):
